@@ -9,7 +9,7 @@ RULE = ("enum: every +/-/0 pattern of length 1..9 (quick) / 1..11 (thorough), sp
         "each class; hyp: sequences of all composition classes up to 300 (quick) / 500 (thorough) residues (half of them, <=60 residues, after a generated warm-up history of other API calls on the same object), each with an independent "
         "respelling. Oracle: (1/N) sum_{m>n} q_m q_n sqrt(m-n) with math.fsum, tolerance 1e-9 relative; exactly 0 "
         "with fewer than two charged residues; respelling leaves the value unchanged. Non-trivial: at least two "
-        "charged residues; distinct by sequence.")
+        "charged residues; distinct by sequence. A quarter of the random cases use a pasted spelling; a quarter also check the SCD of a shuffled child (optionally with frozen positions) against the reference for the child's own sequence. In the generated parts one clean word in eight is handed to the constructor as SeqObj=Sequence(lower/mixed-case text) instead of as a string (same object expected).")
 ASSUMPTIONS = ["reference SCD is an independent transcription of the Sawle-Ghosh definition (vlc/ref.py:scd)",
                "float tolerance 1e-9 relative (observed error < 1e-13)"]
 
